@@ -9,8 +9,9 @@
 
    Interpretation decisions (HACKING rule 1: never demand more than the property text):
    * "live edge" at the session's start instant t: the newest segment that has fully ended,
-     e = max{n : End(n) <= t}; with a constant segment duration d (ms) of the reference
-     (video) track and start number 0: e = t \div d - 1.  The first media segment is e + 1.
+     e = max{n : End(n) <= t} on the timeline of the reference (video) track (segment durations of
+     one loop from the VoD MPD, start number 0; uniform duration d: e = t \div d - 1).  The first
+     media segment is e + 1.
    * "a session with a duration D (s) stops after the corresponding number of segments":
      natural reading D*1000/d segments.  When d does not divide D*1000 both roundings are
      accepted (NLo = floor, NHi = ceiling).  When it divides, exactly that many.
@@ -22,9 +23,20 @@ EXTENDS Integers, Sequences, FiniteSets
 Max2(a, b) == IF a >= b THEN a ELSE b
 Min2(a, b) == IF a <= b THEN a ELSE b
 
-(* ---- C16.consecutive ---- *)
-NewestEnded(startMS, segDurMS) == (startMS \div segDurMS) - 1
-FirstNr(startMS, segDurMS) == NewestEnded(startMS, segDurMS) + 1
+(* ---- C16.consecutive ----
+   durs = the segment durations (ms) of the reference (video) track over one loop of the asset, from the
+   VoD MPD (uniform assets: one element).  Segment numbers count from 0 and wrap with the loop. *)
+Cum(durs, k) == LET f[i \in 0..Len(durs)] == IF i = 0 THEN 0 ELSE f[i - 1] + durs[i] IN f[k]
+LoopMS(durs) == Cum(durs, Len(durs))
+MinDur(durs) == CHOOSE d \in {durs[i] : i \in 1..Len(durs)} : \A i \in 1..Len(durs) : d <= durs[i]
+MaxDur(durs) == CHOOSE d \in {durs[i] : i \in 1..Len(durs)} : \A i \in 1..Len(durs) : d >= durs[i]
+\* newest segment that has fully ended at startMS: e = max{n : End(n) <= startMS}
+NewestEnded(startMS, durs) ==
+   LET L == Len(durs)
+       w == startMS \div LoopMS(durs)
+       rem == startMS % LoopMS(durs)
+   IN  w * L + Cardinality({i \in 1..L : Cum(durs, i) <= rem}) - 1
+FirstNr(startMS, durs) == NewestEnded(startMS, durs) + 1
 \* the k-th media request (k = 1, 2, ...) of a representation carries number first + k - 1
 ExpectedNr(first, k) == first + k - 1
 \* real-time sessions: the start instant is only known within [lo, hi] => first in firstLo..firstHi
@@ -46,14 +58,16 @@ UrlFormOK(streams, kind, form) ==
    ELSE (kind = "init" /\ form = "init") \/ (kind = "media" /\ form = "num")
 
 (* ---- C16.duration ---- *)
-NLo(durS, segDurMS) == (durS * 1000) \div segDurMS
-NHi(durS, segDurMS) == (durS * 1000 + segDurMS - 1) \div segDurMS
+\* non-uniform segment durations: every reading between "all segments long" and "all segments short" is accepted
+NLo(durS, durs) == (durS * 1000) \div MaxDur(durs)
+NHi(durS, durs) == (durS * 1000 + MinDur(durs) - 1) \div MinDur(durs)
 \* idx = index (1-based) of a media request of one representation; nlo = nhi = -1: no duration
 CountOK(nhi, idx) == nhi < 0 \/ idx <= nhi
-\* lmsg only on a segment that can be the last one, and always on the nhi-th (nothing may follow it)
+\* lmsg only on a segment that can be the last one (uniform durations: nlo..nhi = {floor, ceiling}),
+\* and always on the nhi-th (nothing may follow it)
 LmsgOK(nlo, nhi, idx, lmsg) ==
    IF nhi < 0 THEN ~lmsg
-   ELSE (lmsg => idx \in {nlo, nhi}) /\ (idx = nhi => lmsg)
+   ELSE (lmsg => idx \in nlo..nhi) /\ (idx = nhi => lmsg)
 
 (* ---- C16.step ----
    calls  = step calls issued so far for the session, servedLive = step calls that have returned
